@@ -51,13 +51,29 @@ def draw_config(rng, g, tier):
     return kind, threads, fpg, experiments, opts
 
 
-def _stall_faults(r):
+GRAPH_SITES = ["gc_delay_push", "gc_delay_pop", "gc_activations_dec", "gc_startstop_push",
+               "gc_startstop_pop", "gc_slot", "gc_send", "flags_fetch_or", "flags_or_assign",
+               "flags_remove", "elf_sym_flags", "res_take", "res_is_taken", "in_load_index"]
+STR_SITES = ["sm_reserve_cas", "sm_unreserve", "sm_return_vec", "sm_slot_put", "sm_slot_take",
+             "sm_pop_group", "gc_delay_push", "gc_activations_dec"]
+
+
+def _stall_faults(r, which="graph"):
     """Slow workers: in about a third of the schedules the thread that is running at some step is
     kept off the processor for 50..20000 scheduler steps (one or two such stalls)."""
-    if r.random() >= 0.35:
-        return []
-    return [f"stall@step={r.randint(1, 1500)}@{r.choice([50, 500, 5000, 20000])}"
-            for _ in range(r.randint(1, 2))]
+    x = r.random()
+    if x < 0.35:
+        return [f"stall@step={r.randint(1, 1500)}@{r.choice([50, 500, 5000, 20000])}"
+                for _ in range(r.randint(1, 2))]
+    if x < 0.60:
+        # Pre-empt *at a hooked operation*: the thread that reaches the n-th occurrence of a protocol
+        # step (just before a queue push/pop, a counter decrement, a flag update, a CAS...) is kept
+        # off the processor until nobody else can run, i.e. everybody else gets as far as they can
+        # inside that window. Most check-then-act bugs need exactly one such pre-emption.
+        sites = STR_SITES if which == "str" else GRAPH_SITES
+        return [f"stall@site={r.choice(sites)},n={r.choice([1, 1, 2, 3, 5, 8, 13, 30])}@100000000"
+                for _ in range(r.randint(1, 2))]
+    return []
 
 
 def run_job(job):
